@@ -15,6 +15,8 @@ CONSTANTS
   RestoreOnMismatch = FALSE
   FixPosZero = FALSE
   ExcusePosZero = TRUE
+  MaxCrash = 0
+  RestoreRecovers = TRUE
   Emit = FALSE
 VIEW view
 INVARIANTS TypeOK ChainContig Progress RetentionSafe HwmAcked EmitInv
